@@ -115,14 +115,45 @@ Section Equal.
              end
       end.
 
-  (* expressions *)
-  Inductive aexpr := AAny | AEquals (x : gval) | AIn (xs : list gval).
-  Definition aeval (e : aexpr) (a : gval) : bool :=
-    match e with
-    | AAny => true
-    | AEquals x => equal x a
-    | AIn xs => existsb (fun x => equal x a) xs
+  (* expressions (arg/expr.go). A simple expression is Any or Equals; an In expression holds, after Resolve,
+     one list of simple expressions per alternative (InExpr.expressions). *)
+  Inductive sexpr := SAny | SEq (x : gval).
+  Inductive aexpr := AAny | AEquals (x : gval) | AIn (alts : list (list sexpr)).
+
+  Definition seval (e : sexpr) (a : gval) : bool :=
+    match e with SAny => true | SEq x => equal x a end.
+
+  (* the inner loop of InExpr.Eval: lengths must agree and every parameter expression must accept its input *)
+  Fixpoint all2 (es : list sexpr) (input : list gval) : bool :=
+    match es, input with
+    | [], [] => true
+    | e :: es', a :: input' => seval e a && all2 es' input'
+    | _, _ => false
     end.
+
+  (* ExpandVariadic: the last input is the variadic slice *)
+  Definition expand_variadic (input : list gval) : list gval :=
+    match rev input with
+    | [] => input
+    | last :: front => rev front ++ match last with VSlice vs => vs | _ => [] end
+    end.
+
+  (* Eval: None = the "status error" result *)
+  Definition aeval (e : aexpr) (input : list gval) (variadic : bool) : option bool :=
+    match e with
+    | AAny => Some true
+    | AEquals x => match input with [a] => Some (equal x a) | _ => None end
+    | AIn alts =>
+        let input := if variadic then expand_variadic input else input in
+        Some (existsb (fun one => all2 one input) alts)
+    end.
+
+  (* InExpr.Resolve for a non-variadic target with ntypes parameters: a plain value becomes the one-element
+     alternative [v], a []interface{} its elements; ToExpr rejects an alternative of the wrong length *)
+  Inductive inarg := IOne (s : sexpr) | IMany (ss : list sexpr).
+  Definition alt_of (a : inarg) : list sexpr := match a with IOne s => [s] | IMany ss => ss end.
+  Definition resolve_in (args : list inarg) (ntypes : nat) : option aexpr :=
+    if forallb (fun a => Nat.eqb (length (alt_of a)) ntypes) args then Some (AIn (map alt_of args)) else None.
 End Equal.
 
 (* the reference the property names: two nils are equal; pointers by pointee; funcs by identity; everything else deep equality *)
@@ -131,7 +162,7 @@ Definition go_eq (l r : gval) : bool :=
   else if is_nil l || is_nil r then false
   else match deref l, deref r with
        | VFunc i, VFunc j => i =? j
-       | l', r' => deep_eq l' r'
+       | _, _ => deep_eq (deref l) (deref r)
        end.
 
 (* same (static and dynamic) type: same shape of constructors and widths *)
@@ -157,3 +188,28 @@ Fixpoint same_type (a b : gval) {struct a} : bool :=
   | VFunc _, VFunc _ | VChan _, VChan _ => true
   | _, _ => false
   end.
+
+(* concrete library oracles used when the model is EVALUATED against the implementation (vm_compute):
+   exact for same-kind numbers; cross-kind coercions (number vs string, bool vs non-bool, int vs float) are
+   outside the property's statement and outside the evaluated domain *)
+Fixpoint digits_pos (fuel : nat) (n : Z) (acc : list Z) : list Z :=
+  match fuel with
+  | O => acc
+  | S f => if n <? 10 then (48 + n) :: acc else digits_pos f (n / 10) ((48 + n mod 10) :: acc)
+  end.
+Definition dec (z : Z) : list Z := if z <? 0 then 45 :: digits_pos 25 (- z) [] else digits_pos 25 z [].
+Definition fmt_concrete (v : gval) : list Z :=
+  match v with
+  | VInt _ z => dec z
+  | VUint _ z => dec z
+  | VFloat w b => 0 :: w :: dec b
+  | _ => []
+  end.
+Definition equal_c : gval -> gval -> bool :=
+  equal fmt_concrete (fun _ => None) (fun _ => None) (fun _ => None).
+Definition aeval_c := aeval fmt_concrete (fun _ => None) (fun _ => None) (fun _ => None).
+
+(* ordinary values: no NaN, no negative zero anywhere (floats then compare by bit pattern) *)
+Definition ordinary_float (w b : Z) : bool :=
+  if w =? 64 then negb (b =? 9223372036854775808) && negb ((2047 =? (b / 4503599627370496) mod 2048) && negb (b mod 4503599627370496 =? 0))
+  else negb (b =? 2147483648) && negb ((255 =? (b / 8388608) mod 256) && negb (b mod 8388608 =? 0)).
